@@ -215,7 +215,7 @@ type c03Witness struct {
 func init() {
 	core.Register(&core.Check{
 		ID:   "C03",
-		Rule: "documents: one-hot per (object kind, field) from hand-written field tables of OAS 3.0.3 (30 kinds, every field the specification defines) and Swagger 2.0 (11 kinds): a minimal document + the kind's required fields + exactly one optional field (+ a specification extension x-ext, + an unknown field) at a representative position; PRNG-drawn subsets of optional fields per kind; generated documents; every document under the repository's testdata (idempotence half only). For each: parse, marshal to JSON (J1) and YAML (two YAML libraries), re-parse both, marshal again: J2 = J1 and J(Y1) = J1 always; for the normal-form inputs canonical(J1) = canonical(input), the first differing JSON pointer being classified lost / invented / changed. Distinct = (version, kind, populated field set); non-trivial = at least one optional field, extension or unknown field populated.",
+		Rule: "documents: one-hot per (object kind, field) from hand-written field tables of OAS 3.0.3 (30 kinds, every field the specification defines) and Swagger 2.0 (11 kinds): a minimal document + the kind's required fields + exactly one optional field (+ a specification extension x-ext, + an unknown field, + unknown fields named like the fields of OpenAPI 3.1 / JSON Schema 2020-12 / neighbouring kinds, as text, object and list) at a representative position; map keys in upper and mixed case and pairs differing in case only (media types, header names, property names, component names, paths); PRNG-drawn subsets of optional fields per kind; generated documents; every document under the repository's testdata (idempotence half only). For each: parse, marshal to JSON (J1) and YAML (two YAML libraries), re-parse both, marshal again: J2 = J1 and J(Y1) = J1 always; for the normal-form inputs canonical(J1) = canonical(input), the first differing JSON pointer being classified lost / invented / changed. Distinct = (version, kind, populated field set); non-trivial = at least one optional field, extension or unknown field populated.",
 		Assumptions: []string{
 			"the field tables are a correct transcription of the two specifications; one-hot values are in normal form (non-default, no $ref siblings)",
 			"canonical JSON = keys sorted, numbers by value",
@@ -332,12 +332,55 @@ func runC03(c *core.Ctx) {
 				unk["unknownField"] = gen.S{"k": 1.0}
 				run(set.version, k.name, "unknownField", k.place(unk), true)
 			}
+			// unknown fields that carry the names later versions of the specifications (OpenAPI 3.1, JSON Schema 2020-12) and
+			// neighbouring object kinds use, as text, object and list: whatever the library makes of them, they must come back
+			for _, name := range c03ForeignNames {
+				if k.name == "paths" || k.name == "responses" || k.name == "callback" {
+					break // maps: every member is an entry
+				}
+				if _, own := k.required[name]; own {
+					continue
+				}
+				if _, own := k.optional[name]; own {
+					continue
+				}
+				for vi, val := range []any{"v", gen.S{"k": 1.0}, gen.Arr("a")} {
+					unk := gen.Clone(k.required)
+					unk[name] = gen.CloneValue(val)
+					run(set.version, k.name, fmt.Sprintf("unknown:%s#%d", name, vi), k.place(unk), true)
+				}
+			}
 			// all optional fields at once
 			all := gen.Clone(k.required)
 			for f, v := range k.optional {
 				all[f] = gen.CloneValue(v)
 			}
 			run(set.version, k.name, "(all fields)", k.place(all), true)
+		}
+	}
+	// the keys of the specification's maps are part of the document: they come back as written (letter case, blanks,
+	// two keys that differ in case only)
+	{
+		strS := gen.S{"type": "string"}
+		mtNames := []string{"Application/Problem+JSON", "IMAGE/PNG", "Text/CSV", "text/csv", "application/json; charset=UTF-8", "application/vnd.Api+json", "*/*", "Text/*"}
+		content := gen.S{}
+		for i, n := range mtNames {
+			content[n] = gen.S{"schema": gen.S{"type": "string", "title": fmt.Sprintf("mt%d", i)}, "x-n": float64(i)}
+		}
+		for _, sub := range [][]string{mtNames, mtNames[:1], mtNames[2:4], mtNames[1:2]} {
+			cc := gen.S{}
+			for _, n := range sub {
+				cc[n] = gen.CloneValue(content[n])
+			}
+			doc := baseDoc(gen.S{"/k": gen.S{"post": gen.S{
+				"parameters":  gen.Arr(gen.S{"name": "q", "in": "query", "content": gen.S{sub[0]: gen.S{"schema": strS}}}),
+				"requestBody": gen.S{"content": gen.CloneValue(cc)},
+				"responses": gen.S{"200": gen.S{"description": "d", "content": gen.CloneValue(cc), "headers": gen.S{"X-Rate": gen.S{"schema": strS}, "x-rate": gen.S{"schema": gen.S{"type": "integer"}}, "ETAG": gen.S{"content": gen.S{sub[0]: gen.S{"schema": strS}}}}},
+					"2XX": gen.S{"description": "upper"}, "default": gen.S{"description": "dflt"}},
+			}}, "/K": gen.S{"get": gen.S{"responses": gen.S{"200": gen.S{"description": "other path, other case"}}}}})
+			doc["components"] = gen.S{"schemas": gen.S{"Pet": gen.S{"type": "object", "properties": gen.S{"Name": strS, "name": gen.S{"type": "integer"}, "NAME": gen.S{"type": "boolean"}}}, "pet": strS},
+				"securitySchemes": gen.S{"Key": gen.S{"type": "apiKey", "in": "header", "name": "K"}, "key": gen.S{"type": "http", "scheme": "Basic"}}}
+			run("v3", "map-keys", strings.Join(sub, "|"), doc, true)
 		}
 	}
 	// PRNG-drawn subsets
@@ -393,6 +436,12 @@ func runC03(c *core.Ctx) {
 		idx++
 	}
 }
+
+// c03ForeignNames: field names that the object kinds do not define in OpenAPI 3.0 / Swagger 2.0 but that exist in OpenAPI 3.1,
+// JSON Schema 2020-12 or on a neighbouring kind.
+var c03ForeignNames = []string{"identifier", "summary", "const", "prefixItems", "$schema", "$id", "$defs", "$comment", "$anchor", "contentEncoding", "contentMediaType",
+	"contentSchema", "unevaluatedProperties", "unevaluatedItems", "dependentRequired", "dependentSchemas", "if", "then", "else", "minContains", "maxContains", "contains",
+	"patternProperties", "propertyNames", "webhooks", "jsonSchemaDialect", "pathItems", "examples", "title", "deprecated", "termsOfService", "style", "bearerFormat", "id"}
 
 func c03One(c *core.Ctx, codec c03codec, kind, field string, input []byte, normal bool) {
 	desc := fmt.Sprintf("%s kind=%s field=%s", codec.version, kind, field)
